@@ -14,7 +14,7 @@ internal errors met on ill-formed payloads are counted (they show the hypothesis
 """
 import json
 
-from prosemirror.model import Fragment, Schema, Slice
+from prosemirror.model import Fragment, Node, Schema, Slice
 from prosemirror.transform import AddMarkStep, RemoveMarkStep, ReplaceAroundStep, ReplaceStep, Step
 
 from .. import core, gen, schemas
@@ -112,6 +112,86 @@ def payload_valid(step, schema):
     return True
 
 
+# ---- aimed cases for `insert_into` (the flat case validates the content it *built*) ------------------------------------
+# Three local schemas whose textblock `para` tells apart what the old test looked at (`can_replace(index, index, gap)`:
+# the unjoined sequence with the gap *before* a split text) from what is built (the two halves of the text around the
+# gap, adjacent texts with equal marks joined by `Fragment.append`):
+#   inside-text   `image* text*`                 gap with an image inside a text: test passed, result invalid (finding
+#                                                C01-insert-inside-text) — now refused
+#   optional-text `text?`                        gap text that joins the texts around it: test failed (two / three texts),
+#                                                result valid — now accepted
+#   join-pair     `(text (text image)? image)?`  unjoined `text text image image` matches, joined `text image image` does
+#                                                not (`text text (text text)?` itself is not a constructible expression:
+#                                                text in a required position) — now refused
+AIMED_JOIN = {
+    "inside-text": "image* text*",
+    "optional-text": "text?",
+    "join-pair": "(text (text image)? image)?",
+}
+
+
+def aimed_join_schema(shape):
+    return Schema({"nodes": {"doc": {"content": "para+"}, "para": {"content": AIMED_JOIN[shape]},
+                             "image": {"inline": True, "group": "inline"}, "text": {"group": "inline"}},
+                   "marks": {"em": {}}})
+
+
+def aimed_join_content(rng, shape):
+    """a random valid content of `para`, as a list of ("text", str, marked) / ("image",) items (adjacent texts differ in marks)"""
+    t = lambda marked: ("text", gen.gen_text(rng, 1, 4, plain=True), marked)  # noqa: E731
+    if shape == "inside-text":
+        out = [("image",)] * rng.randint(0, 2)
+        m = rng.random() < 0.5
+        for _ in range(rng.randint(0, 3)):
+            out.append(t(m))
+            m = not m
+        return out
+    if shape == "optional-text":
+        return [t(rng.random() < 0.3)] if rng.random() < 0.8 else []
+    r = rng.random()
+    if r < 0.15:
+        return []
+    m = rng.random() < 0.5
+    if r < 0.6:
+        return [t(m), ("image",)]
+    return [t(m), t(not m), ("image",), ("image",)]
+
+
+def aimed_join_nodes(schema, items):
+    em = schema.mark("em")
+    return [schema.node("image") if it[0] == "image" else schema.text(it[1], [em] if it[2] else None) for it in items]
+
+
+def aimed_join_built(pre_items, off, gap_items):
+    """the content `insert_into` has to build and validate, stated on the items: the slice node's content cut at text
+    offset `off` (in positions: an image counts 1), the gap in between, adjacent texts with equal marks joined"""
+    left, right, pos = [], [], 0
+    for it in pre_items:
+        size = 1 if it[0] == "image" else len(it[1])
+        if pos + size <= off:
+            left.append(it)
+        elif pos >= off:
+            right.append(it)
+        else:
+            k = off - pos
+            left.append(("text", it[1][:k], it[2]))
+            right.append(("text", it[1][k:], it[2]))
+        pos += size
+    out = []
+    for it in left + list(gap_items) + right:
+        if out and out[-1][0] == "text" and it[0] == "text" and out[-1][2] == it[2]:
+            out[-1] = ("text", out[-1][1] + it[1], it[2])
+        else:
+            out.append(it)
+    return out
+
+
+def aimed_join_json(items):
+    return [{"type": "image"} if it[0] == "image" else
+            dict({"type": "text", "text": it[1]}, **({"marks": [{"type": "em"}]} if it[2] else {})) for it in items]
+
+
+
 def run(ctx):
     core.lean_phase(ctx)
     rng = ctx.rng
@@ -192,7 +272,8 @@ def run(ctx):
         aimed_inside_text = si == len(fam)
         if aimed_inside_text:
             # aimed: a textblock that wants its images before its text; replace-around steps that re-wrap a textblock's content
-            # in a slice node and put it *inside the text* of that node (see open finding C01-insert-inside-text)
+            # in a slice node and put it *inside the text* of that node (finding C01-insert-inside-text: with the repaired
+            # `insert_into` such a step is refused whenever the built content `text₁ gap text₂` is not valid content)
             info = SchemaInfo(Schema({"nodes": {"doc": {"content": "para+"}, "para": {"content": "image* text*"},
                                                 "image": {"inline": True, "group": "inline"}, "text": {"group": "inline"}},
                                       "marks": {"em": {}}}), "random")
@@ -219,6 +300,7 @@ def run(ctx):
                                              Slice(Fragment.from_(x0.type.create(x0.attrs, [schema.text(txt)])), 0, 0),
                                              1 + rng.randint(1, len(txt) - 1), rng.random() < 0.3)
                     ctx.count("aimed_insert_inside_text_steps")
+                    ctx.count("aimed_inside_text_random:" + apply_outcome(step, d)[0])
                 via_json = rng.random() < 0.3
                 if via_json:
                     stj, step2 = outcome(lambda: Step.from_json(schema, json.loads(json.dumps(step.to_json()))))
@@ -248,6 +330,67 @@ def run(ctx):
                 wf_stream(info, d, docs)
         if len(wreqs) >= 8000:
             flush_wf()
+
+    # aimed: the flat case of `insert_into` at every offset of a slice node's content, gap = the whole content of a
+    # textblock of the document (join shapes; see AIMED_JOIN).  Exact tie with the model as for every other step, the
+    # validity oracle, and the closed-form expectation: the step applies iff the content that has to be built is valid
+    # content of `para` for the independent spec validator.
+    for shape in AIMED_JOIN:
+        info = SchemaInfo(aimed_join_schema(shape), "random")
+        schema = info.schema
+        val = validator(schema)
+        ctx.driver.add_schema(info)
+        ctx.count("schema:aimed-join:" + shape)
+        for _ in range(ctx.budget(60, 300)):
+            paras = [aimed_join_content(rng, shape) for _ in range(rng.randint(1, 3))]
+            d = schema.node("doc", None, [schema.node("para", None, aimed_join_nodes(schema, c)) for c in paras])
+            i0 = rng.randrange(len(paras))
+            a0 = sum(d.child(j).node_size for j in range(i0))
+            x0 = d.child(i0)
+            pre = aimed_join_content(rng, shape)
+            size = sum(1 if it[0] == "image" else len(it[1]) for it in pre)
+            off = rng.randint(0, size)
+            step = ReplaceAroundStep(a0, a0 + x0.node_size, a0 + 1, a0 + x0.node_size - 1,
+                                     Slice(Fragment.from_(schema.node("para", None, aimed_join_nodes(schema, pre))), 0, 0),
+                                     1 + off, False)
+            built = aimed_join_built(pre, off, paras[i0])
+            want = d.to_json()
+            want["content"][i0] = dict({"type": "para"}, **({"content": aimed_join_json(built)} if built else {}))
+            expect_ok = val.problem(want) is None
+            via_json = rng.random() < 0.3
+            if via_json:
+                stj, step2 = outcome(lambda: Step.from_json(schema, json.loads(json.dumps(step.to_json()))))
+                if stj != "ok":
+                    continue
+                step = step2
+            st, res = apply_outcome(step, d)
+            sj = info.step(step)
+            inside = 0 < off < size and aimed_join_built(pre, off, [("image",)]) != aimed_join_built(pre, off, []) and \
+                len(aimed_join_built(pre, off, [("image",)])) == len(pre) + 2
+            ctx.case(["apply", info.name, d.to_json(), sj],
+                     sample={"op": "apply", "schema": "aimed-join:" + shape, "doc": str(d)[:200], "step": step.to_json(), "outcome": st})
+            ctx.count(f"aimed_join:{shape}:{'inside-text' if inside else 'boundary'}:{st}")
+            if shape == "inside-text" and inside:
+                ctx.count("aimed_insert_inside_text_steps")
+            replay = {"schema": info.name, "schema_spec_nodes": {n: {k2: v for k2, v in t.spec.items() if isinstance(v, (str, bool, int, dict))}
+                                                                 for n, t in schema.nodes.items()},
+                      "doc": d.to_json(), "step": step.to_json(), "via_json": via_json, "aimed": "join:" + shape}
+            if st == "ok":
+                stc, err = outcome(res.check)
+                prob = val.problem(res.to_json())
+                if stc != "ok" or prob:
+                    ctx.violation("invalid-result", "step returned a schema-invalid document: " + (prob or str(err)),
+                                  dict(replay, result=res.to_json()))
+                elif expect_ok and not res.eq(Node.from_json(schema, want)):
+                    ctx.mismatch("aimed-join-result", replay, want, res.to_json())
+            elif st in ("internal", "hang"):
+                ctx.violation("internal-error", f"Step.apply died with an internal error: {res}", replay)
+            if (st == "ok") != expect_ok and st in ("ok", "failed"):
+                # not a violation of C01 (a refusal is always allowed); the expectation states what the repaired
+                # `insert_into` does: it refuses exactly the gap contents whose built form the receiving node rejects
+                ctx.mismatch("aimed-join-expectation", replay, "applies" if expect_ok else "refused", st)
+            reqs.append({"op": "apply", "s": info.lean_id, "doc": info.node(d), "step": sj})
+            metas.append((replay, st, info.node(res) if st == "ok" else None))
     flush()
     flush_wf()
     return ctx.finish(
